@@ -113,6 +113,7 @@ def _kernel(ctx: Ctx) -> None:
     body = func_body(fi)
     ev = make_evaluator(repo, fi)
     ev.int_transparent = True
+    ev.compose_rows = True
     outer = next((s for s in body if isinstance(s, ast.For)), None)
     ctx.need(outer is not None, "game_plan_length: loop over teams")
     inner = next((s for s in outer.body if isinstance(s, ast.For)), None)
@@ -129,6 +130,15 @@ def _kernel(ctx: Ctx) -> None:
             a, b = (t.id for t in s.targets[0].elts)
             pre.vars[a] = Poly.var("days")
             pre.vars[b] = Poly.var("teams")
+            shape_ok = True
+        elif isinstance(s, (ast.Assign, ast.AnnAssign)) and getattr(
+                s, "value", None) is not None and ast.unparse(
+                s.value) == "y.shape" and isinstance(
+                s.targets[0] if isinstance(s, ast.Assign) else s.target,
+                ast.Name):
+            # shape = y.shape; days = shape[0]; teams = shape[1]
+            tg_ = s.targets[0] if isinstance(s, ast.Assign) else s.target
+            pre.vars[tg_.id] = (Poly.var("days"), Poly.var("teams"))
             shape_ok = True
         elif isinstance(s, (ast.Assign, ast.AnnAssign)):
             try:
@@ -409,9 +419,12 @@ def _bounds(ctx: Ctx) -> None:
     okw = False
     for x in ast.walk(evm.node):
         if isinstance(x, ast.Call) and repo.resolve_expr(
-                evm.module, x.func) is k and len(x.args) == 3:
+                evm.module, x.func) is k:
+            from sa.srcmodel import bound_args, inline_locals
             p = evm.params[1]
-            okw = [ast.unparse(a) for a in x.args] == [
+            ba = bound_args(x, list(k.params))
+            okw = [ast.unparse(inline_locals(evm.node, ba[q]))
+                   if q in ba else None for q in k.params] == [
                 p, f"{p}.instance", "self.bye_penalty"]
     ctx.ob("D8.2", evm, evm.node, okw,
            "evaluate(x) calls the kernel with (x, x.instance, "
